@@ -62,6 +62,17 @@ def drive(ctx):
                   {"k": "tz", "z": {"n": "", "fo": 19800}, "zk": "fixed"}, {"k": "tz", "z": {"n": "", "fo": -3600}, "zk": "fixed"},
                   {"k": "tz", "z": UTCZ, "zk": "pendulum"}):
             all_hows(v)
+        # fixed offsets carrying an explicit name (tz-database abbreviations such as "-03", "+04", "CET"), alone and
+        # as the zone of a DateTime / Time
+        from ..proj import cps
+
+        for (fo, nm) in ((-10800, "-03"), (14400, "+04"), (3600, "CET"), (0, "UTC"), (19800, "+0530"), (19800, "IST"),
+                         (-34200, "-0930"), (20700, "+0545"), (-1, "LMT"), (0, "Z"), (3600, "+01:00")):
+            z = {"n": "", "fo": fo}
+            all_hows({"k": "tz", "z": z, "zk": "fixed", "nm": cps(nm)})
+            all_hows(dict(mk_dt(z, [2020, 5, 17, 1, 2, 3, 4], 0), nm=cps(nm)))
+            all_hows({"k": "time", "w": [1, 2, 3, 4], "cls": "Time", "z": z, "zk": "fixed", "nm": cps(nm)})
+            all_hows({"k": "time", "w": [23, 59, 59, 0], "cls": "Time", "z": z, "zk": "fixed"})
         da = {"k": "date", "w": [2024, 1, 31], "cls": "Date"}
         db = {"k": "date", "w": [2025, 3, 1], "cls": "Date"}
         ua = mk_dt(UTCZ, [2024, 1, 31, 10, 0, 0, 0], 0)
